@@ -58,7 +58,8 @@ def run(ck):
         elif f > 0:
             n = min(n, 8 * L)
         method = ['top_vector_agop_on_subset', 'random_pca', 'linear', 'pca', 'rf_criterion', 'random', 'fixed_vector',
-                  'random_agop_on_subset', 'top_pc_agop_on_subset'][i % 9]
+                  'random_agop_on_subset', 'top_pc_agop_on_subset', 'random_global_agop'][i % 10]
+        tree_iters = 0
         kw = {}
         if exact:
             X = xr.make_X('distinct_grid', n, d, rng)
@@ -71,20 +72,26 @@ def run(ck):
             X = xr.make_X('random', n, d, rng)
             if method == 'fixed_vector':
                 kw['fixed_vector'] = torch.tensor(rng.standard_normal(d).astype(np.float32))
+        if method == 'random_global_agop':
+            tree_iters = [1, 2][(i // 10) % 2]                 # the held tree is a copy of the best of 1 + tree_iters builds
         y = xr.make_y('reg', X, rng)
         nv = int(rng.integers(5, 60))
         Xv = xr.make_X('distinct_grid' if exact else 'random', nv, d, rng)
         yv = xr.make_y('reg', Xv, rng)
-        desc = dict(i=i, n=n, L=L, d=d, f=f, method=method, exact=exact, seed=ck.seed)
+        desc = dict(i=i, n=n, L=L, d=d, f=f, method=method, exact=exact, tree_iters=tree_iters, seed=ck.seed)
         xr.seed_all(8000 + i + ck.seed)
-        model = xr.xRFM(rfm_params=xr.default_rfm_params(iters=0, reg=1e-2), max_leaf_size=L, split_method=method,
-                        overlap_fraction=f, verbose=False, use_temperature_tuning=False, refill_size=10, **kw)
+        model = xr.xRFM(rfm_params=xr.default_rfm_params(iters=(1 if tree_iters else 0), reg=1e-2), max_leaf_size=L, split_method=method,
+                        overlap_fraction=f, verbose=False, use_temperature_tuning=False, refill_size=10, n_tree_iters=tree_iters, **kw)
         Xt = torch.tensor(X)
         rec = xr.fit_recorded(model, Xt, torch.tensor(y), torch.tensor(Xv), torch.tensor(yv), timeout=120, tolerate_empty_val=True)
         if rec.error is not None:
             ck.violation(f'fit did not return ({rec.error}) on {desc}', dict(desc, error=rec.error), key=json.dumps(dict(site='fit')))
             continue
-        root = rec.trees[0]
+        root = xr.match_build(rec, model.trees[0])
+        if root is None:
+            ck.violation(f'the held tree is none of the {len(rec.trees)} trees that were built, on {desc}', dict(desc), key=json.dumps(dict(site='held-tree')))
+            continue
+        ck.count(f'tree_iters={tree_iters}')
         nodes = [nd for nd in xr.walk(root) if nd['kind'] != 'leaf']
         ck.count(f'method={method}'); ck.count(f'f={f}'); ck.count('exact-arith' if exact else 'float-band')
         ck.count(f'depth={orc.tree_depth(model.trees[0])}')
@@ -103,7 +110,7 @@ def run(ck):
         # ---- oracle on the statement: real prediction-time routing of training rows vs leaf that received them ----
         tree = model.trees[0]
         groups, gidx, gleaves = model._get_leaf_groups_and_models_on_samples(Xt, tree)
-        recv_of_leaf = {id(lf['leaf']): set(lf['ids']) for lf in xr.leaves_of(root)}
+        recv_of_leaf = {id(held): set(lf['ids']) for lf, held in xr.leaf_pairs(root, tree)}
         lids = orc.assign_leaf_ids(tree)
         reached = {}
         for idx, lf in zip(gidx, gleaves):
